@@ -33,6 +33,14 @@ struct RequestData {
 #[derive(Debug)]
 pub struct AlreadyExistsError;
 
+#[cfg(feature = "verif-hooks")]
+impl InFlightRequests {
+    /// (tracked in-flight requests, armed deadline timers).
+    pub fn verif_counts(&self) -> (usize, usize) {
+        (self.request_data.len(), self.deadlines.len())
+    }
+}
+
 impl InFlightRequests {
     /// Returns the number of in-flight requests.
     pub fn len(&self) -> usize {
